@@ -358,6 +358,10 @@ void add_type(Node *node) {
     if (node->lhs->ty->kind != TY_PTR)
       error_tok(node->lhs->tok, "pointer expected");
     node->ty = node->lhs->ty->base;
+
+    // The new value is converted to the type of the object.
+    if (is_numeric(node->ty) || node->ty->kind == TY_PTR)
+      node->rhs = new_cast(node->rhs, node->ty);
     return;
   }
 }
